@@ -180,6 +180,26 @@ def run(ctx):
     rep.settle(describe=lambda m: "@packageonly (allow-list shape %s) seen from package %s, reference %s: the annotation must take effect at the item it documents only"
                % (m["al"], m["pkg"], m["files"]))
     total += rep.run
+    # annotations in the files that follow a skipped file of the same package (skipped by name or as a test file, sorting before or
+    # after the annotated file) are recognised like anywhere else (Files.tla, classes genfirst / genfile / test)
+    import gen_files
+    from checks import c14
+    fscs, _r = progcheck.tlc_scenarios(ctx, "Files", c14.cfg(), "c15_effect_files")
+    fgroups = {}
+    for sc in fscs:
+        if sc["sc"]["cls"] in ("genfirst", "genfile", "test") and sc["skip"]:
+            fgroups.setdefault(json.dumps(gen_files.cfg_of(sc), sort_keys=True), []).append(sc)
+    for key, group in sorted(fgroups.items()):
+        c = json.loads(key)
+        frep = progcheck.Replay(ctx, None)
+        fitems = []
+        for i, sc in enumerate(progcheck.sample(group, 400 if thorough else 60, ctx.seed)):
+            prog, exp, _ = gen_files.build_files(sc, "C15_eff_files_%d_%d" % (total, i))
+            fitems.append((prog, exp, {"sc": sc["sc"], "skip": sc["skip"]}))
+        frep.check(fitems, cfg=c, project=lambda ds: proglib.keyset(ds))
+        frep.settle(cfg=c, project=lambda ds: proglib.keyset(ds),
+                    describe=lambda m: "annotations of a package one of whose files is skipped (%s): they must be recognised in the other files" % (m["sc"],))
+        total += frep.run
     return ctx.finish("model_checking", {
         "traces_validated_against_impl": total,
         "samples": samples[:3],
